@@ -77,6 +77,8 @@ def menu_errors():
         for k in ('badj', 'badh', 'big'):
             m.append(('serve', x, k, None))
     m.append(('create-config', None, None, None))
+    # an application running in debug mode is created and answers a malformed and an oversized body itself
+    m.append(('debug-app-errors', None, None, None))
     return m
 
 
@@ -216,6 +218,15 @@ class World:
         kind, x, n, y = op
         if kind == 'create':
             self.om.Ombott()
+            return None
+        if kind == 'debug-app-errors':
+            dbg = self.om.Ombott({'debug': True, 'max_body_size': 8})
+            dbg.route('/b', 'POST', lambda: dbg.request.body.read())
+            dbg.route('/j', 'POST', lambda: repr(dbg.request.json))
+            for env in (wsgi.environ('POST', '/b', body=b'zz\r\n', chunked=True, headers={'Accept': 'application/json'}),
+                        wsgi.environ('POST', '/b', body=b'0123456789abcdef'),
+                        wsgi.environ('POST', '/j', body=b'{bad', ctype='application/json')):
+                wsgi.call(dbg, env)
             return None
         if kind == 'create-config':
             errs = sut.sub('request_pkg.errors')
